@@ -258,6 +258,38 @@ func rgCompare(g *DependencyGraph, m *rgModel, fresh bool, n int) []string {
 			add("leaves", "GetLeaves=%v model=%v", rgSetI(gl), rgSetI(leaves))
 		}
 	}
+	// the topological order does not depend on the history: it is asked for after every operation, also in the middle of
+	// a bulk phase (deferred adds not yet completed by DetectCycles), and must be right each time
+	bad = append(bad, rgCheckSort(g, m)...)
+	return bad
+}
+
+func rgCheckSort(g *DependencyGraph, m *rgModel) []string {
+	var bad []string
+	cyc := m.cyclic()
+	order, terr := g.TopologicalSort()
+	if (terr != nil) != cyc {
+		bad = append(bad, fmt.Sprintf("toposort: error=%v model cyclic=%v", terr != nil, cyc))
+	}
+	if terr == nil {
+		posn := map[int]int{}
+		for i, nd := range order {
+			if _, dup := posn[rgIdx(nd.Key)]; dup {
+				bad = append(bad, "toposort: node listed twice")
+			}
+			posn[rgIdx(nd.Key)] = i
+		}
+		if len(posn) != len(m.nodes) {
+			bad = append(bad, fmt.Sprintf("toposort: %d nodes listed, model has %d", len(posn), len(m.nodes)))
+		}
+		for u, l := range m.edges {
+			for _, v := range l {
+				if posn[v] >= posn[u] && u != v {
+					bad = append(bad, fmt.Sprintf("toposort: dependency %d after dependent %d", v, u))
+				}
+			}
+		}
+	}
 	return bad
 }
 
@@ -516,4 +548,52 @@ func TestReplay_GraphDAGs(t *testing.T) {
 		}
 	}
 	t.Logf("graph/dags: %d graphs over %d nodes", graphs, n)
+}
+
+// A query in the middle of a bulk phase (deferred adds not yet completed by DetectCycles) must not poison later answers:
+// once the documented cycle check has run, TopologicalSort lists every dependency before its dependent again, and on a graph
+// built by deferred adds alone it does not invent a cycle.
+func TestReplay_GraphSortIgnoresStaleDegrees(t *testing.T) {
+	wrong, invented := 0, 0
+	for i := 0; i < 200; i++ {
+		g := NewDependencyGraph()
+		// 1 <- 0 ; 3 <- 2, then 0 is replaced (deferred) by a provider that depends on 2 instead of 1
+		for _, p := range []*rgProv{{1, nil}, {3, nil}, {2, []int{3}}, {0, []int{1}}} {
+			if err := g.AddProvider(p); err != nil {
+				t.Fatal(err)
+			}
+		}
+		if _, err := g.TopologicalSort(); err != nil {
+			t.Fatal(err)
+		}
+		g.AddProviderDeferred(&rgProv{0, []int{2}})
+		_, _ = g.TopologicalSort() // query while the bulk phase is open
+		if err := g.DetectCycles(); err != nil {
+			t.Fatal(err)
+		}
+		sorted, err := g.TopologicalSort()
+		if err != nil {
+			t.Fatalf("unexpected error %v", err)
+		}
+		pos := map[int]int{}
+		for j, nd := range sorted {
+			pos[rgIdx(nd.Key)] = j
+		}
+		if len(sorted) != 4 || pos[2] > pos[0] {
+			wrong++
+		}
+		// deferred adds alone: 0 -> 1, acyclic
+		h := NewDependencyGraph()
+		h.AddProviderDeferred(&rgProv{0, []int{1}})
+		h.AddProviderDeferred(&rgProv{1, nil})
+		if _, err := h.TopologicalSort(); err != nil {
+			invented++
+		}
+	}
+	if wrong > 0 {
+		t.Errorf("REPLAY-CONFIRMED DependencyGraph.TopologicalSort#assert[entry_stands_for_an_occurrence]: in %d of 200 runs the order returned after DetectCycles lists node 0 before its dependency 2 (order computed from stale Dependents was cached as clean)", wrong)
+	}
+	if invented > 0 {
+		t.Errorf("REPLAY-CONFIRMED DependencyGraph.TopologicalSort#post[gives_up_only_without_ranking]: in %d of 200 runs TopologicalSort reported a cycle in the acyclic graph 0 -> 1 built by deferred adds", invented)
+	}
 }
